@@ -47,6 +47,12 @@ RULES = {
    "for range ch with ch of type chan<- int is accepted (Go: cannot range over a send-only channel)", "stmt.go forRangeStmt.getKeyValTypes: channel direction is not looked at"),
   ("KF-C01-6", "comparison-accepts-mismatched-or-unrepresentable-operands", r'^accepted-although-(mismatched|notrepresentable)/(equality|ordering) \[.*var|^accepted-although-case/switch/tag:',
    "== / != / < with a variable accept mismatched defined types (MyInt == int) and untyped constants not representable in the variable's type (v_int8 == 300)", "template.go ComparableTo / untypedComparable (see C05 findings 4-6)"),
+  ("KF-C01-19", "make-size-arguments-not-checked", r'^accepted-although-(toomany|size|negsize|lencap|missinglen)/builtin/make\(',
+   "make(T, sizes...) is emitted without checking the size arguments: their number (make([]int), make([]int, 1, 2, 3), make(map[string]int, 1, 2)), their type (a float64 variable, 1.5, \"s\"), their sign (-1) or len > cap for constants", "builtin_gengo.go makeInstr.Call (arguments beyond the third are dropped silently)"),
+  ("KF-C01-20", "untyped-nil-accepted-as-slice-operand-of-append-and-copy", r'^accepted-although-notslice/builtin/append\(nil|^accepted-although-copy/builtin/copy\((nil,|[^,]+,nil\))',
+   "append(nil, 1) (typed []int by the builder), copy(s, nil) and copy(nil, s) are accepted (Go: the slice operand must be a typed slice)", "builtin_gengo.go append / copy templates: nil unifies with []Type"),
+  ("KF-C01-21", "min-max-of-constants-skip-operand-matching", r'^accepted-although-mismatch/builtin/(min|max)\{((typed-const:\w+|untyped-\w+-const),?)+\}$',
+   "min / max whose operands are all constants skip operand matching (the root cause of KF-C01-1): max(kf, 1.5, \"s\"), min(1, kstr), min(k8, 1.5) are accepted and folded", "ast.go:751-755 tryBuiltinCall sets instrFlagUntyped"),
  ],
  "C02": [
   ("KF-C02-1", "integral-float-constant-shift-count-rejected", r'^rejected-valid/shift(<<|>>) \[.*untyped-float-const\]$',
@@ -93,12 +99,18 @@ RULES = {
    "\"abc\"[0:1] has type string in Go (slicing a constant string gives a non-constant string); the builder reports untyped string", "util_gengo.go Slice: the operand's untyped type is kept"),
   ("KF-C03-3", "untyped-int-shift-by-float-count-reported-untyped-float", r'^type untyped int reported as untyped float \[constant-operands, shift\]$',
    "1 << 2.0 is an untyped int constant; the builder reports untyped float (the kind of the count)", "builtin_gengo.go shift result kind"),
+  ("KF-C03-6", "min-max-of-constants-report-an-untyped-kind", r'^type int8 reported as int \[builtin/(min|max)\]$|^untyped=false reported as untyped=true \[builtin/(min|max)\]$|^type float64 reported as int \[builtin/(min|max)\]$',
+   "min / max of constants: with a typed constant operand the result is reported untyped (max(k8) is an int8 constant, reported untyped int); with untyped operands of mixed kinds the kind is not the larger one (max(1, 1.5) is an untyped float 1.5, reported as untyped int with value 1.5)", "ast.go result type mapping for instrFlagUntyped (same root as KF-C03-1)"),
+  ("KF-C03-7", "append-to-a-defined-slice-type-reports-the-unnamed-slice", r'^type MySlice reported as \[\]int \[builtin/append\]$',
+   "append(s, x) with s of a defined slice type (type MySlice []int) has type MySlice in Go; the builder reports []int", "builtin_gengo.go append template: func append(slice []Type, elems ...Type) []Type"),
  ],
  "C04": [
   ("KF-C04-1", "constant-expression-folded-although-go-rejects-it", r'^folded-although-\w+/',
    "a constant expression Go rejects (typed overflow, unrepresentable operand, negative shift count, constant conversion out of range) is folded to a value instead of being rejected (same root cause as KF-C01-1/5)", "ast.go binaryOp/unaryOp/doBinaryOp, matchTypeCast"),
   ("KF-C04-2", "integer-division-with-integral-float-constant-folded-as-float", r'^value-differs// \[(untyped-float-const, typed-const|typed-const, untyped-float-const)\]$',
    "c_int / 2.0 is integer division in Go (7/2 = 3) because 2.0 is converted to int; the builder folds 3.5", "ast.go binaryOp integer-division special case looks at the constant kinds only"),
+  ("KF-C04-3", "complex-of-typed-constants-not-folded", r'^constness\(go=true,builder=false\)/builtin/complex\(',
+   "complex(kf, 1), complex(kf, kf) with a typed float constant operand are constants in Go; the builder carries no value for them (only the untyped overload is folded)", "ast.go:672 tryBuiltinCall only when the result type is untyped"),
  ],
  "C17": [
   ("KF-C17-1", "assignment-like-operations-assume-a-reference-operand", r'^run-time-fault/(AssignOp\S+|IncDec) .* failed-type-assertion$',
